@@ -274,6 +274,9 @@ pub enum Op {
     /// update_mmap / update_mmap_rayon / update_reader(File) on a special file kind
     FileKinds { kind: u8 },
 
+    /// one direct kernel call with guard-placed buffers and register sentinels (C07)
+    Kernel { k: usize, a: KArgs },
+
     // ---- C library node ----
     CInit { slot: usize, flavour: u8, mode: Mode, raw: bool },
     CUpdate { c: usize, data: usize, off: usize, len: usize, tbb: Option<JoinPolicy> },
@@ -286,6 +289,7 @@ pub enum Op {
 impl Op {
     pub fn kind(&self) -> &'static str {
         match self {
+            Op::Kernel { .. } => "Kernel",
             Op::CliFile { .. } => "CliFile",
             Op::CliFsFault { .. } => "CliFsFault",
             Op::CliHash { .. } => "CliHash",
@@ -357,6 +361,25 @@ pub struct CliFlags {
     /// an extra flag that clap must reject in this combination (e.g. "--tag" with --check)
     #[serde(default)]
     pub bogus: Option<String>,
+    /// deliver stdin in two pieces, split at this byte
+    #[serde(default)]
+    pub stdin_split: Option<u8>,
+}
+
+#[derive(Serialize, Deserialize, Clone, Debug, PartialEq, Default)]
+pub struct KArgs {
+    /// number of inputs (hash_many) or output blocks (xof_many)
+    pub n: usize,
+    pub blocks16: bool,
+    pub counter: u64,
+    pub incr: bool,
+    pub flags: u8,
+    pub fs: u8,
+    pub fe: u8,
+    pub block_len: u8,
+    /// 2 bits per buffer: where it sits relative to an inaccessible page
+    pub places: u32,
+    pub seed: u64,
 }
 
 #[derive(Serialize, Deserialize, Clone, Debug, PartialEq)]
